@@ -209,6 +209,12 @@ func (e *Engine) verifyFunc(fi *funcInfo, c *FuncContract) (res *FuncResult) {
 			res.EngineErr = "loop contract not matched: " + lc.Key
 		}
 	}
+	for _, h := range c.Asserts {
+		if !h.used {
+			res.Orphaned = true
+			res.EngineErr = "assert hint anchor not matched: " + h.Anchor
+		}
+	}
 	return res
 }
 
@@ -355,10 +361,135 @@ func autoPattern(t *Term) {
 		}
 		return vars, clean, size
 	}
-	walk(t.Args[0])
+	// candidates: clean applications that mention at least one bound variable (for multi-patterns)
+	type cand struct {
+		t    *Term
+		vars map[string]bool
+		size int
+	}
+	var cands []cand
+	var collect func(x *Term)
+	collect = func(x *Term) {
+		if x.Op == "forall" || x.Op == "exists" {
+			return
+		}
+		for _, a := range x.Args {
+			collect(a)
+		}
+		v, c, s := walkNoRecord(x, need)
+		if (x.UF && len(x.Args) > 0 || x.Op == "select") && c && len(v) > 0 {
+			cands = append(cands, cand{x, v, s})
+		}
+	}
+	body := t.Args[0]
+	// (1) equation with a covering left-hand side: orient the axiom as a rewrite rule from the lhs.
+	//     div/mod are allowed inside such a pattern (matched syntactically), which avoids matching loops
+	//     for laws like jac(a mod b, b) == jac(a, b).
+	eq := body
+	for eq.Op == "=>" {
+		eq = eq.Args[1]
+	}
+	if eq.Op == "=" && (eq.Args[0].UF && len(eq.Args[0].Args) > 0 || eq.Args[0].Op == "mod" || eq.Args[0].Op == "div") {
+		lhs := eq.Args[0]
+		if v, ok := patVars(lhs, need); ok && len(v) == len(need) {
+			t.Pats = [][]*Term{{lhs}}
+			return
+		}
+	}
+	walk(body)
 	if best != nil {
 		t.Pats = [][]*Term{{best}}
+		return
 	}
+	// (3) greedy multi-pattern
+	collect(body)
+	covered := map[string]bool{}
+	var multi []*Term
+	for len(covered) < len(need) {
+		bi, gain := -1, 0
+		for i, c := range cands {
+			g := 0
+			for k := range c.vars {
+				if !covered[k] {
+					g++
+				}
+			}
+			if g > gain || (g == gain && g > 0 && bi >= 0 && c.size < cands[bi].size) {
+				bi, gain = i, g
+			}
+		}
+		if bi < 0 || gain == 0 {
+			return
+		}
+		multi = append(multi, cands[bi].t)
+		for k := range cands[bi].vars {
+			covered[k] = true
+		}
+	}
+	if len(multi) > 0 {
+		t.Pats = [][]*Term{multi}
+	}
+}
+
+// patVars: bound variables of a candidate pattern; ok is false if the term contains connectives or +,-,* over
+// bound variables (div and mod are tolerated).
+func patVars(x *Term, need map[string]bool) (map[string]bool, bool) {
+	if x.Op == "var" {
+		if need[x.Lit] {
+			return map[string]bool{x.Lit: true}, true
+		}
+		return map[string]bool{}, true
+	}
+	if x.Op == "forall" || x.Op == "exists" {
+		return nil, false
+	}
+	vars := map[string]bool{}
+	for _, a := range x.Args {
+		v, ok := patVars(a, need)
+		if !ok {
+			return nil, false
+		}
+		for k := range v {
+			vars[k] = true
+		}
+	}
+	bad := x.Op == "+" || x.Op == "-" || x.Op == "*" || x.Op == "ite" || x.Op == "and" || x.Op == "or" || x.Op == "not" ||
+		x.Op == "=>" || x.Op == "=" || x.Op == "<" || x.Op == "<=" || x.Op == ">" || x.Op == ">="
+	if bad && len(vars) > 0 {
+		return nil, false
+	}
+	return vars, true
+}
+
+func walkNoRecord(x *Term, need map[string]bool) (map[string]bool, bool, int) {
+	if x.Op == "var" {
+		if need[x.Lit] {
+			return map[string]bool{x.Lit: true}, true, 1
+		}
+		return map[string]bool{}, true, 1
+	}
+	if x.Op == "forall" || x.Op == "exists" {
+		return map[string]bool{}, false, 1
+	}
+	vars := map[string]bool{}
+	clean := true
+	size := 1
+	for _, a := range x.Args {
+		v, c, s := walkNoRecord(a, need)
+		for k := range v {
+			vars[k] = true
+		}
+		if !c {
+			clean = false
+		}
+		size += s
+	}
+	arith := x.Op == "+" || x.Op == "-" || x.Op == "*" || x.Op == "div" || x.Op == "mod" || x.Op == "ite" ||
+		x.Op == "and" || x.Op == "or" || x.Op == "not" || x.Op == "=>" || x.Op == "=" || x.Op == "<" || x.Op == "<=" || x.Op == ">" || x.Op == ">="
+	if arith && len(vars) > 0 {
+		clean = false
+	}
+	return vars, clean, size
 }
 
 // theoryAxioms returns the axioms of the named theories.
